@@ -88,15 +88,15 @@ Theorem C05_processor_paths_valid_partial : forall n os a choose fuel, 1 <= n ->
 Proof. exact processor_ssa_path_valid. Qed.
 Print Assumptions C05_processor_paths_valid_partial.
 
-(* ---- partition_builder_complete: REFUTED for build_agglom (finding 17) ---------- *)
-(* a partition function of the right length that merges nothing (every group its own label)
-   makes the while loop of build_agglom run for ever: no amount of fuel suffices *)
-Theorem C05_build_agglom_terminates_refuted :
+(* ---- the OLD build_agglom loop did not terminate (finding 17, fixed by /repo 001d170) --- *)
+(* [build_agglom_old] is the loop as it was before the fix: a partition function of the right
+   length that merges nothing (every group its own label) makes it run for ever *)
+Theorem C05_old_build_agglom_terminates_refuted :
   exists (memb_fn : list nset -> list nat) (n groupsize : nat),
     (forall l, length (memb_fn l) = length l) /\ groupsize >= 2 /\
-    forall fuel, build_agglom (sub_of_table []) memb_fn groupsize fuel n = None.
-Proof. exact build_agglom_terminates_refuted. Qed.
-Print Assumptions C05_build_agglom_terminates_refuted.
+    forall fuel, build_agglom_old (sub_of_table []) memb_fn groupsize fuel n = None.
+Proof. exact old_build_agglom_terminates_refuted. Qed.
+Print Assumptions C05_old_build_agglom_terminates_refuted.
 
 (* non-vacuity *)
 Example C05_nonvacuous_processor :
@@ -104,8 +104,9 @@ Example C05_nonvacuous_processor :
             (a_present a = [5; 6]) /\ (a_path a = [[1]; [0; 4]; [2; 3]]).
 Proof. eexists. vm_compute. repeat split. Qed.
 Example C05_repaired_agglom :
-  exists t, build_agglom_fixed (sub_of_table []) id_membership 4 5 = Some t /\ Permutation (leaves t) (seq 0 5).
-Proof. exact build_agglom_fixed_id5. Qed.
+  build_agglom (sub_of_table []) id_membership 4 5 =
+    Some (Node (Node (Node (Node (Leaf 3) (Leaf 4)) (Leaf 2)) (Leaf 1)) (Leaf 0)).
+Proof. vm_compute. reflexivity. Qed.
 Example C05_divide_example :
   match build_divide (sub_of_table []) (fun s => map (fun x => Nat.modulo x 2) s) 1 6 with
   | Some t => tree_complete_b 6 (children_of t) = true
